@@ -390,18 +390,21 @@ func describeSite(r *Resolver, in ssa.Instruction) string {
 
 // trimOrg removes SSA register names so that construct keys are stable.
 func trimOrg(s string) string {
-	for {
-		i := strings.Index(s, ")@t")
-		if i < 0 {
-			break
+	var b strings.Builder
+	for i := 0; i < len(s); i++ {
+		if s[i] == '@' && i+1 < len(s) && s[i+1] == 't' {
+			j := i + 2
+			for j < len(s) && s[j] >= '0' && s[j] <= '9' {
+				j++
+			}
+			if j > i+2 {
+				i = j - 1
+				continue
+			}
 		}
-		j := i + 3
-		for j < len(s) && s[j] >= '0' && s[j] <= '9' {
-			j++
-		}
-		s = s[:i+1] + s[j:]
+		b.WriteByte(s[i])
 	}
-	return s
+	return b.String()
 }
 
 // lenFacts: lower bound on len(x) implied by the guards of an instruction.
